@@ -16,7 +16,12 @@ META = {
         "notification call returns nothing and Payload.notify drops the id for 2.0 and nulls it for 1.0; C04.6 in the batch and the "
         "single path of _unmarshaled_dispatch every entry accepted by validate_request reaches _marshaled_single_dispatch on all "
         "normal paths (no further rejection); C04.7 (imported from C02.1) no exception can leave the dispatcher: an escaping exception "
-        "on a notification path is turned into an HTTP 500 error object by the request handler, i.e. the notification is answered."),
+        "on a notification path is turned into an HTTP 500 error object by the request handler, i.e. the notification is answered; C04.8 "
+        "(structural part of the pooled case, imported from C09.2 / C10.7 / C10.7b) a worker of the notification pool executes each "
+        "dequeued task exactly once, an idle worker retires only when the other idle workers outnumber the waiting tasks, and every "
+        "queued task is counted, so a notification accepted by the pool is not left without a worker by the accounting; C04.9 some "
+        "layer of the dispatcher catches every exception of the callable, BaseException included: a notification whose method raises "
+        "SystemExit / KeyboardInterrupt is not answered by the HTTP layer's error object."),
     "does_not_decide": "that an enqueued notification is eventually executed exactly once by the pool under "
                        "every interleaving (schedule-quantified; C09 covers the pool's structural discipline).",
     "rules": {
@@ -27,6 +32,7 @@ META = {
         "C04.5": "return statements of _request_notify; abstract evaluation of Payload.notify per version region",
         "C04.6": "reachability avoiding the dispatch call from the accepting edge of the validation test",
         "C04.7": "imported C02.1 (E4 may-raise analysis)",
+        "C04.8": "imported C09.2, C10.7, C10.7b", "C04.9": "handler structure around the invocation (common.base_exception_layers)",
     },
     "assumptions": ["a custom dispatch function and the registered callables are opaque; only that they are "
                     "invoked once is decided"],
@@ -260,3 +266,17 @@ def check(ck):
     from rules import c02, common as _common
     _common.import_rules(ck, c02, {"C02.1": "C04.7"})
     ck.floor("C04.7", 1)
+
+    # ---- C04.8 a notification handed to the pool is executed once (structural part; shared with C09 / C10) ---------------------
+    from rules import c09, c10
+    _common.import_rules(ck, c09, {"C09.2": "C04.8"})
+    _common.import_rules(ck, c10, {"C10.7": "C04.8", "C10.7b": "C04.8"})
+    ck.floor("C04.8", 8)
+
+    # ---- C04.9 no exception of the method turns into an answer of the HTTP layer ---------------------------------------------------
+    layers = _common.base_exception_layers(prog)
+    ck.require(layers["_dispatch (around the method call)"] or layers["_marshaled_single_dispatch (around the dispatch)"], "C04.9",
+               "%s: the dispatcher catches every exception of the callable" % SRV, "bare except / except BaseException around the call",
+               "neither _dispatch nor _marshaled_single_dispatch catches a non-Exception BaseException raised by the method of a notification "
+               "(SystemExit, KeyboardInterrupt, GeneratorExit): it escapes to the request handler, which answers the notification with an "
+               "error object (HTTP 500)", "jsonrpclib/SimpleJSONRPCServer.py")
